@@ -108,12 +108,16 @@ func c01BuildOpts(r *rand.Rand, next http.Handler, weights []int, histLen int, o
 		selector
 	} = rrInner
 	viaRB := false
+	c01LastRB = nil
 	if histLen > 0 && r.IntN(4) == 0 {
-		rb, err := roundrobin.NewRebalancer(rrInner)
+		// (meters that are ready at once and rate every server alike: the rebalancer evaluates the pool on every request it
+		// serves and never has a reason to move a weight)
+		rb, err := roundrobin.NewRebalancer(rrInner, roundrobin.RebalancerMeter(func() (roundrobin.Meter, error) { return &scriptedMeter{ready: true}, nil }))
 		if err != nil {
 			return nil, nil, nil, err
 		}
 		viaRB = true
+		c01LastRB = rb
 		rr = struct {
 			c01Admin
 			selector
@@ -196,6 +200,9 @@ func c01BuildOpts(r *rand.Rand, next http.Handler, weights []int, histLen int, o
 	}
 	return rrInner, urls, hist, nil
 }
+
+// c01LastRB: the rebalancer the last pool was built behind (nil: none); requests may be served through it.
+var c01LastRB http.Handler
 
 type c01ConfigErr struct{ msg string }
 
@@ -373,6 +380,12 @@ func c01SeqCase(c *Ctx, i int, r *rand.Rand) {
 			return
 		}
 		viaHTTP := r.IntN(3) == 0 || stickyMode
+		// a pool built behind a rebalancer is also served through it (all servers rated alike: weights must not move)
+		var front http.Handler = rr
+		if c01LastRB != nil && !stickyMode {
+			front, viaHTTP = c01LastRB, true
+			c.Count("pools_served_through_a_rebalancer", 1)
+		}
 		total := 3*ref.W + r.IntN(ref.W+1)
 		seq := make([]string, 0, total)
 		if viaHTTP {
@@ -403,7 +416,7 @@ func c01SeqCase(c *Ctx, i int, r *rand.Rand) {
 						mu.Unlock()
 					}
 				}
-				rr.ServeHTTP(httptest.NewRecorder(), httptest.NewRequest("GET", "http://client.test/x", nil))
+				front.ServeHTTP(httptest.NewRecorder(), httptest.NewRequest("GET", "http://client.test/x", nil))
 			}
 			seq = seen
 			if len(seq) != total {
@@ -466,6 +479,27 @@ func c01ConcCase(c *Ctx, i int, r *rand.Rand) {
 		}
 		if viaServe {
 			c.Count("conc_cases_via_ServeHTTP", 1)
+		}
+		if i%3 == 0 {
+			// several callers add the same, not yet known server at once; one removal then takes it out again and the pool is
+			// the configured one (a duplicate record left behind would show in the counts below)
+			nu := mustURL(sfmt("http://racing-add-%d.test/", i))
+			w := 1 + r.IntN(5)
+			var awg sync.WaitGroup
+			var go4 atomic.Bool
+			for g := 0; g < 6; g++ {
+				awg.Add(1)
+				go func() {
+					defer awg.Done()
+					for !go4.Load() {
+					}
+					_ = rr.UpsertServer(nu, roundrobin.Weight(w))
+				}()
+			}
+			go4.Store(true)
+			awg.Wait()
+			_ = rr.RemoveServer(nu)
+			c.Count("conc_racing_adds", 1)
 		}
 		P := pick(r, []int{2, 4, 8, 16})
 		K := 1 + r.IntN(6)
